@@ -487,6 +487,13 @@ func (fv *FuncVerifier) specHelper(st *State, env *Env, call *ast.CallExpr, name
 			return fv.unsupported(st, env, call, "has on non-map", SBool), true
 		}
 		return w.MapHas(m, fv.coerce(k, w.mapKV[m.Sort][0])), true
+	case "spec_elem":
+		x := fv.eval(st, env, call.Args[0])
+		sq := fv.eval(st, env, call.Args[1])
+		if !w.IsSeq(sq.Sort) {
+			return fv.unsupported(st, env, call, "elem on non-slice", SBool), true
+		}
+		return w.SeqIn(fv.coerce(x, w.elemOf[sq.Sort]), sq), true
 	case "spec_implies":
 		a := fv.eval(st, env, call.Args[0])
 		b := fv.eval(st, env.with(a), call.Args[1])
